@@ -25,6 +25,9 @@ func searchNormalForm(p *core.Prog, c0 *core.Ctx, kf *core.KnownFindings, runAt 
 	score := func(x *core.Ctx) int {
 		n := 0
 		for _, o := range x.Finish(kf).Violations {
+			if strings.Contains(o.Key, "/coverage/not-examined/") {
+				continue // counted as a missing stem below
+			}
 			if strings.Contains(o.Key, "/anchors/") {
 				n += 1000 // an unresolved anchor hides every obligation behind it
 			} else {
@@ -84,10 +87,24 @@ func searchNormalForm(p *core.Prog, c0 *core.Ctx, kf *core.KnownFindings, runAt 
 			chainGroups = append(chainGroups, grp)
 		}
 	}
-	orders := [][][]string{
-		append(append(append([][]string{}, singles...), chainGroups...), typeGroups...),
-		append(append(append([][]string{}, typeGroups...), chainGroups...), singles...),
+	// call sites of exported functions ("callee@caller") are tried after the unexported helpers: dissolving a
+	// helper is what undoes a refactoring, while inlining an exported constructor into another one also moves the
+	// checks of the first into the second and can satisfy a stem with the wrong function's code (a local optimum
+	// the greedy search then does not leave)
+	siteLast := func(gs [][]string) [][]string {
+		var plain, sites [][]string
+		for _, g := range gs {
+			if strings.Contains(g[0], "@") {
+				sites = append(sites, g)
+			} else {
+				plain = append(plain, g)
+			}
+		}
+		return append(plain, sites...)
 	}
+	o1 := append(append(append([][]string{}, singles...), chainGroups...), typeGroups...)
+	o2 := append(append(append([][]string{}, typeGroups...), chainGroups...), singles...)
+	orders := [][][]string{siteLast(o1), siteLast(o2)}
 	runs := 0
 	base := refStems[c0.Property]
 	full := score
